@@ -306,9 +306,21 @@ def _alarm(signum, frame):
     raise _Timeout()
 
 
+BOUND_CODES = {'min>max', 'pl<min', 'pl>max'}
+
+
+def _resumable(ops, k, dev):
+    """A deviation confined to the bounds directly after a bound assignment, and the next operation
+    assigns the same bound again: keep going, so that the corrective assignment can be checked
+    (D09b narrowed, theorem C09_inv_corrected_step; whether the next operation really is
+    corrective is decided by the driver's `hypC`)."""
+    return (set(dev) <= BOUND_CODES and ops[k]['k'] in ('setMin', 'setMax')
+            and k + 1 < len(ops) and ops[k + 1]['k'] == ops[k]['k'])
+
+
 def run_history(torf, ops, root, stop_on_deviation=True, timeout=60):
     """Run one history on a fresh Torrent.  Returns the list of steps
-    {'obs':…, 'res':…, 'dev': [codes]} (truncated after the first deviation)."""
+    {'obs':…, 'res':…, 'dev': [codes]} (truncated after the first deviation, unless `_resumable`)."""
     steps = []
     old = signal.signal(signal.SIGALRM, _alarm)
     signal.alarm(timeout)
@@ -341,7 +353,7 @@ def run_history(torf, ops, root, stop_on_deviation=True, timeout=60):
             obs = project(t, root)
             dev += spec_check(torf, t, obs, root)
             steps.append({'obs': obs, 'res': res, 'dev': dev})
-            if dev and stop_on_deviation:
+            if dev and stop_on_deviation and not _resumable(ops, len(steps) - 1, dev):
                 break
     except _Timeout:
         steps.append({'obs': None, 'res': 'timeout', 'dev': ['timeout']})
